@@ -384,7 +384,7 @@ def run_grader(ctx):
     from mitxgraders.helpers.calc import MathArray
     from mitxgraders.helpers.calc.exceptions import MathArrayError
     rng = ctx.rng
-    for i in range(ctx.n(800, 8000)):
+    for i in range(ctx.n(800, 40000)):
         negpow = (i % 3 == 0)
         ctx.seed_case('negpow', i)
         extra_vars, extra_sf = [], {}
@@ -426,7 +426,7 @@ def run_identity(ctx):
     neutral = ['A*I', 'I*A', 'A+I-I', 'A*I^3', 'A+0*I', '2*I*A/2', 'A*I^-1', 'I^0*A', 'A*trans(I)', 'A*det(I)', 'A*trace(I)/{n}', 'I*A*I',
                '(A+I)*(A-I)-A^2+I+A', 'A*norm(I)^2/{n}']
     changed = ['A+I', 'A*2*I', 'A-I', 'I', 'A*trace(I)', 'A+I*1e-3']
-    for i in range(ctx.n(640, 6000)):
+    for i in range(ctx.n(640, 30000)):
         n = rng.choice([2, 2, 3, 4])
         ctx.seed_case('identity', i)
         mode = rng.choice(['same', 'same', 'same', 'other_dim', 'absent'])
@@ -456,7 +456,7 @@ def run_identity(ctx):
 
 def run(ctx):
     # the operand pool is drawn from the shard's generator: thorough repeats the whole lattice with fresh values
-    for rep in range(ctx.pick(1, 12)):
+    for rep in range(ctx.pick(1, 40)):
         run_raw(ctx)
         run_strings(ctx)
     run_grader(ctx)
